@@ -168,8 +168,10 @@ theorem hook_failure_inert (c : Cfg) (s : Script) :
 theorem spec_holds (c : Cfg) (s : Script) : violations c s (entryPoint c s) = [] := by
   obtain ⟨hx, hl, hg, hc, hp, hr, hm, hd, he, -⟩ := entryPoint_fields c s
   have h1 := start_lt_stop c s
+  have ht : ((entryPoint c s).trace.all fun o => o.lockHeld == c.lock) = true := by
+    rw [List.all_eq_true]; intro o ho; simpa using lock_held_throughout c s o ho
   unfold violations
-  simp only [hx, hl, hg, hc, hp, hr, hm, hd, he]
+  simp only [hx, hl, hg, hc, hp, hr, hm, hd, he, ht]
   cases c.art <;> cases c.db <;> cases c.hooks <;> simp [chk] <;> omega
 
 /-- the transport of a scanner is closed again unless `setup()` or the command's own teardown code (before
